@@ -173,3 +173,4 @@ def run(chk):
     ok = any(e.recv == SELF for e in T.calls("outlay"))
     chk.ob("C05.R8", ok, CORE, "SecurityBase.transact", "booking-uses-probed-cost", "the cost booked by a trade is computed by the same outlay() the sizing probed", where=T.fn.where)
     core_rules.transact_rules(chk, "C05")
+    core_rules.refresh_before_trade(chk, "C05")
